@@ -371,46 +371,51 @@ pub fn generate(prop: &str, seed: u64) -> Scenario {
             }
             match &scn.term {
                 Term::Find(_) | Term::Any(_) | Term::All(_) | Term::FindWithIndex(_) => {
-                    // two or three matches far apart: different chunks, the first one deep inside its chunk
-                    let mut tmp = scn.clone();
-                    tmp.term = Term::Count;
-                    let rf = reference(&tmp);
-                    let m = rf.finals.len();
-                    let mut ids = vec![];
-                    if m > 0 {
-                        let a = r.below(m);
-                        ids.push(rf.finals[a].1.id);
-                        if r.chance(3, 4) {
-                            ids.push(rf.finals[(a + m / 3 + r.below(m / 3 + 1)).min(m - 1)].1.id);
-                        }
-                        if r.chance(1, 3) {
-                            ids.push(rf.finals[r.below(m)].1.id);
-                        }
-                    }
-                    ids.sort();
-                    ids.dedup();
-                    let p = Pred::Ids(ids);
-                    scn.term = match &scn.term {
-                        Term::Find(_) => Term::Find(p),
-                        Term::Any(_) => Term::Any(p),
-                        Term::FindWithIndex(_) => Term::FindWithIndex(p),
-                        _ => {
-                            // all: everything but the chosen ids passes
-                            let keep: Vec<u64> = match &p {
-                                Pred::Ids(x) => x.clone(),
-                                _ => vec![],
-                            };
-                            let mut all: Vec<u64> = rf.finals.iter().map(|f| f.1.id).filter(|id| !keep.contains(id)).collect();
-                            all.sort();
-                            Term::All(Pred::Ids(all))
-                        }
-                    };
+                    place_far_matches(&mut r, &mut scn);
                 }
                 _ => {}
             }
         }
     }
     scn
+}
+
+/// two or three matches far apart (different chunks, the first one deep inside its chunk) for the find family
+pub fn place_far_matches(r: &mut Rng, scn: &mut Scenario) {
+    let mut tmp = scn.clone();
+    tmp.term = Term::Count;
+    let rf = reference(&tmp);
+    let m = rf.finals.len();
+    let mut ids = vec![];
+    if m > 0 {
+        let a = r.below(m);
+        ids.push(rf.finals[a].1.id);
+        if r.chance(3, 4) {
+            ids.push(rf.finals[(a + m / 3 + r.below(m / 3 + 1)).min(m - 1)].1.id);
+        }
+        if r.chance(1, 3) {
+            ids.push(rf.finals[r.below(m)].1.id);
+        }
+    }
+    ids.sort();
+    ids.dedup();
+    let p = Pred::Ids(ids);
+    scn.term = match &scn.term {
+        Term::Find(_) => Term::Find(p),
+        Term::Any(_) => Term::Any(p),
+        Term::FindWithIndex(_) => Term::FindWithIndex(p),
+        Term::All(_) => {
+            // all: everything but the chosen ids passes
+            let keep: Vec<u64> = match &p {
+                Pred::Ids(x) => x.clone(),
+                _ => vec![],
+            };
+            let mut all: Vec<u64> = rf.finals.iter().map(|f| f.1.id).filter(|id| !keep.contains(id)).collect();
+            all.sort();
+            Term::All(Pred::Ids(all))
+        }
+        t => t.clone(),
+    };
 }
 
 fn generate_inner(prop: &str, seed: u64) -> Scenario {
@@ -989,7 +994,7 @@ pub fn c15_chunks(len: usize) -> Vec<Option<Chunk>> {
 }
 
 fn gen_c15(seed: u64, r: &mut Rng, huge: bool) -> Scenario {
-    let large = huge || seed % 1009 == 0;
+    let large = huge || seed % 397 == 0;
     // consecutive seeds are scattered over the grid by a multiplier coprime with its size: any stretch of seeds
     // samples all dimensions evenly, and C15_CELLS consecutive seeds visit every cell exactly once
     let mut idx = ((seed as u128 * 1_000_003u128) % C15_CELLS as u128) as usize;
@@ -1064,14 +1069,23 @@ fn gen_c15(seed: u64, r: &mut Rng, huge: bool) -> Scenario {
     if large {
         // sampled large inputs; closures are yield points only every 2^k-th event
         // the largest sampled length costs ~10 s per run: it has its own phase in the thorough tier
-        let n = if huge { (1 << 20) + 3 } else { *r.pick(&[1usize << 10, 1 << 10, 1 << 10, (1 << 14) + 1, (1 << 14) + 1, (1 << 14) + 1, 1 << 17]) };
+        let n = if huge {
+            (1 << 20) + 3
+        } else {
+            *r.pick(&[1usize << 10, 1 << 10, (1 << 11) + 5, 3000, (1 << 12) + 1, (1 << 12) + 1, 6000, (1 << 14) + 1, 1 << 17])
+        };
         scn.vals = spec_vals(n, r.below(64) as u64);
         scn.quiet = if n > (1 << 15) { 12 } else { 6 };
-        if let Term::Find(_) = scn.term {
-            refresh_pred(r, &mut scn);
-        }
         if scn.src == Src::SliceCloned {
             scn.src = Src::Vec;
+        }
+        if let Term::Find(_) = scn.term {
+            place_far_matches(r, &mut scn);
+        }
+        // chunk sizes around and beyond 1024 are where the large inputs differ from the grid's small ones
+        if r.chance(1, 2) && matches!(scn.src, Src::Vec | Src::Range | Src::IterExact) {
+            let c = *r.pick(&[512usize, 1024, 1025, 2048, 4096]);
+            scn.cs = vec![(0, if r.chance(1, 2) { Chunk::Exact(c) } else { Chunk::Min(c) })];
         }
     }
     scn
